@@ -31,7 +31,75 @@ func Generate(r *lib.Rng, tier string) *Case {
 		g.c.Calls = append(g.c.Calls, CallSpec{Stream: r.Chance(1, 3), Mod: r.Chance(1, 2)})
 	}
 	g.c.NoID = r.Chance(1, 25)
+	g.lists()
 	return g.c
+}
+
+// lists decides how the interrupt configuration is handed over (drawn last: the shapes above are what
+// they were before this existed). Forests: 50% (single graphs: 20%) of the cases hand ONE list per
+// kind to a group of graphs (all of them 60%, else a random non-empty subset): the union of the
+// group's sets, shuffled, 50% with 1-2 names the group does not contain (nodes of the other graphs,
+// ids no graph declares, rarely start / end), 30% with 1-2 names given twice.
+func (g *genCtx) lists() {
+	r, c := g.r, g.c
+	ng := len(c.Graphs)
+	if ng > 1 && !r.Chance(1, 2) || ng == 1 && !r.Chance(1, 5) {
+		return
+	}
+	l := &ListSpec{}
+	if r.Chance(6, 10) {
+		for gi := 0; gi < ng; gi++ {
+			l.Graphs = append(l.Graphs, gi)
+		}
+	} else {
+		for gi := 0; gi < ng; gi++ {
+			if r.Chance(1, 2) {
+				l.Graphs = append(l.Graphs, gi)
+			}
+		}
+		if len(l.Graphs) == 0 {
+			l.Graphs = []int{r.Intn(ng)}
+		}
+	}
+	var outside []int
+	for gi := range c.Graphs {
+		if has(l.Graphs, gi) {
+			l.Before = append(l.Before, c.Graphs[gi].Before...)
+			l.After = append(l.After, c.Graphs[gi].After...)
+		} else {
+			for _, n := range c.Graphs[gi].Nodes {
+				outside = append(outside, n.ID)
+			}
+		}
+	}
+	dress := func(xs []int) []int {
+		if r.Chance(1, 2) {
+			for k := r.Range(1, 2); k > 0; k-- {
+				switch x := r.Intn(10); {
+				case x < 4 && len(outside) > 0:
+					xs = append(xs, outside[r.Intn(len(outside))])
+				case x < 9:
+					xs = append(xs, g.nextID+r.Intn(3))
+				default:
+					xs = append(xs, r.Intn(2)) // "start" / "end"
+				}
+			}
+		}
+		if len(xs) > 0 && r.Chance(3, 10) {
+			for k := r.Range(1, 2); k > 0; k-- {
+				xs = append(xs, xs[r.Intn(len(xs))])
+			}
+		}
+		out := make([]int, len(xs))
+		for i, p := range r.Perm(len(xs)) {
+			out[i] = xs[p]
+		}
+		return out
+	}
+	l.Before = dress(l.Before)
+	l.After = dress(l.After)
+	c.Lists = l
+	c.Normalise()
 }
 
 func (g *genCtx) pickMode(parent string) string {
